@@ -282,7 +282,7 @@ def generate(rng, tier):
     for name in sorted(DR.DRIVERS):
         drv = DR.DRIVERS[name]
         yield from drv.boundary_cases()
-        n = drv.weight * (250 if not thorough else 6000)
+        n = drv.weight * (250 if not thorough else 12000)
         for _ in range(n):
             cfg = drv.gen_cfg(rng)
             pre = drv.gen_pre(rng, cfg)
@@ -291,4 +291,8 @@ def generate(rng, tier):
 
 
 def evidence_extra():
+    from harness.c39_base import L_STATS
+
+    STATS["float_gap"] = DR.GAPS[0]
+    STATS["unsupported_noop"] = L_STATS.get("unsupported_noop", 0)
     return {"device_setters": discovered_setters(), "setters_without_driver": uncovered_setters(), **STATS}
